@@ -186,11 +186,11 @@ Env 1: one episode of 4 steps — longer than the HER ring of 3 — truncated at
 def herCfg : Cfg ℚ := ⟨2, .discrete, 0, 1, false, false, false, id⟩
 def herCalls : List (Call ℚ) :=
   [ ⟨true, 10, [[0, 1, 9], [100, 101, 909]], none,
-      [ ⟨[[1], [0]], none, [⟨[10, 11, 9], 1, false, false, []⟩, ⟨[110, 111, 909], 1, false, false, []⟩], none⟩,
-        ⟨[[0], [1]], none, [⟨[20, 21, 9], 2, true, false, [30, 31, 8]⟩, ⟨[120, 121, 909], 2, false, false, []⟩], none⟩,
-        ⟨[[1], [1]], none, [⟨[40, 41, 8], 3, false, false, []⟩, ⟨[130, 131, 909], 3, false, false, []⟩], none⟩,
-        ⟨[[0], [0]], none, [⟨[50, 51, 8], 4, true, false, [60, 61, 7]⟩, ⟨[140, 141, 909], 4, false, true, [150, 151, 808]⟩], none⟩,
-        ⟨[[1], [0]], none, [⟨[70, 71, 7], 5, false, false, []⟩, ⟨[160, 161, 808], 5, false, false, []⟩], none⟩ ]⟩ ]
+      [ ⟨[[1], [0]], none, [⟨[10, 11, 9], 1, false, false, [], none⟩, ⟨[110, 111, 909], 1, false, false, [], none⟩], none⟩,
+        ⟨[[0], [1]], none, [⟨[20, 21, 9], 2, true, false, [30, 31, 8], none⟩, ⟨[120, 121, 909], 2, false, false, [], none⟩], none⟩,
+        ⟨[[1], [1]], none, [⟨[40, 41, 8], 3, false, false, [], none⟩, ⟨[130, 131, 909], 3, false, false, [], none⟩], none⟩,
+        ⟨[[0], [0]], none, [⟨[50, 51, 8], 4, true, false, [60, 61, 7], none⟩, ⟨[140, 141, 909], 4, false, true, [150, 151, 808], none⟩], none⟩,
+        ⟨[[1], [0]], none, [⟨[70, 71, 7], 5, false, false, [], none⟩, ⟨[160, 161, 808], 5, false, false, [], none⟩], none⟩ ]⟩ ]
 
 /-- the HER buffer fed by that run: `buffer_size = 7`, two envs: ring `7 // 2 = 3 < 5` adds — it wraps -/
 def herBuf : Her := Her.run (ringSize 7 2) 2 true (toOps exHTag (run herCfg herCalls).st.buffer)
